@@ -15,6 +15,9 @@ func init() {
 			ro.countShape(r, "table.count-shape")
 			ro.acceptEffects(r, map[string]bool{"ignore-false": true, "rejected-effect-free": true, "per-action": true, "timer": true, "start-arg": true, "registered": true})
 			ro.canceledSites(r, "canceled-site")
+			// a job that was popped and started must not reappear on the wait list (it would occupy a queue slot)
+			ro.noLostUpdate(r, "no-lost-update")
+			ro.dequeueLoop(r, map[string]bool{"pop-on-start": true})
 			r.Floor("table.", 3)
 			r.Floor("accept.", 8)
 			r.Floor("canceled-site", 5)
